@@ -174,7 +174,7 @@ func (w *World) others() []Obj {
 	add("HandoverMessageData/operation", true, isaacstates.VerifNewHandoverMessageData(w.Str("id-"),
 		isaacstates.HandoverMessageDataTypeOperation, w.SuffrageJoin()))
 	{
-		_, exps, _ := w.Expels(w.Height(), 1)
+		_, exps, _ := w.Expels(w.HeightPos(), 1)
 		add("HandoverMessageData/suffrage-voting", true, isaacstates.VerifNewHandoverMessageData(w.Str("id-"),
 			isaacstates.HandoverMessageDataTypeSuffrageVoting, exps[0]))
 	}
